@@ -660,6 +660,48 @@ def track(R, RID='C05.track'):
     R.ob(RID, '_is_text is cleared somewhere', vals.count('False') >= 2, '_is_text is never cleared: '
          'continuations of binary messages would be validated as text', func='frame_parser.FrameParser.on_frame',
          node=None, construct='_is_text = False')
+    # completeness of the bookkeeping, decided per path of one frame's processing (parse() from the frame construction
+    # to `yield frame`, with on_frame() spliced in): after a final data frame the flag is False; after a non-final TEXT
+    # frame it is True; a control frame leaves it alone
+    from .common import path_consistent
+    qp = 'frame_parser.FrameParser.parse'
+    gp = R.cfg(qp, 'frame_parser.FrameParser')      # the base class: on_frame() of the client parser only adds the mask check
+    rdp = ReachingDefs(gp)
+    fv = _frame_var_in(R.func(qp))
+    consn = [m for m in gp.live_nodes() if m.kind == 'stmt' and isinstance(m.ast, ast.Assign) and U(m.ast.targets[0]) == fv]
+    yf = [y for y in gp.yields() if isinstance(y.ast.value, ast.Name) and y.ast.value.id == fv]
+    if len(consn) == 1 and len(yf) == 1:
+        from .common import frame_situation
+        cases = [
+            ('a final TEXT frame leaves the flag False', frame_situation(R, fv, 1, 1), False),
+            ('a final continuation frame leaves the flag False', frame_situation(R, fv, 0, 1), False),
+            ('a final BINARY frame leaves the flag False', frame_situation(R, fv, 2, 1), False),
+            ('a non-final TEXT frame leaves the flag True', frame_situation(R, fv, 1, 0), True),
+        ]
+        from . import common as _cm
+        _cm.SPLICE_ALSO.add('on_frame')
+        _cm._HP_CACHE.clear()
+        try:
+            pcs = path_conditions(R, gp, rdp, consn[0], yf[0])
+        finally:
+            _cm.SPLICE_ALSO.discard('on_frame')
+            _cm._HP_CACHE.clear()
+        for (what, truth, want) in cases:
+            bad = []
+            n_ok = 0
+            for l in pcs:
+                if not path_consistent(l, truth):
+                    continue
+                last = getattr(l, 'assigns', {}).get('self._is_text')
+                v = U(last[0]) if last is not None else 'unchanged'
+                if v != str(want):
+                    bad.append((v, sorted(t for (t, p) in l if p)[:5]))
+                else:
+                    n_ok += 1
+            R.ob(RID, what, not bad and n_ok >= 1,
+                 'processing such a frame can end with _is_text %s (path: %s): the text/binary routing of the following '
+                 'continuation frames is wrong' % (bad[0] if bad else ('never %s' % want), ''), func=qp, node=yf[0].ast,
+                 construct='_is_text after: ' + what)
     # generic: per-message parser state (any field written while parsing frames) is not touched by control frames
     known = {'_is_text'}
     for fq in ('frame_parser.FrameParser.parse', 'frame_parser.FrameParser.on_frame', recv + '.on_frame'):
